@@ -39,6 +39,15 @@ CLAIMED = {
              "unprotected name is reported; 47 genuine captures of the pinned tree are listed by (scope, name, kind, site), each "
              "reproduced dynamically once (findings/repro_c18.py).",
         ref="DESIGN.md §4 C18"),
+    "C06": dict(
+        technique="exception-escape analysis over the call graph with try/handler matching, may-raise table on document-derived operands (labels from the abstract interpreter), template dispatch totality, termination-pattern matching on CFGs/SCCs, CFG dominance for exit status and effects",
+        text="Absence over all paths: every explicit raise is a recognised protocol or caught on every call path from the entry "
+             "points; every raising library call applied to document-derived operands sits in a try that catches what it raises; "
+             "callbacks that run inside pydantic validation raise only what pydantic wraps; untrusted Any is not returned as a "
+             "container unchecked; every dynamic template dispatch is total (or guarded); each of the 4 while loops and 8 "
+             "recursive cycles matches a ranking pattern; exit status / no-write-on-rejection by dominance. Not decided: "
+             "exceptions and hangs inside third-party code, RecursionError on pathologically deep documents.",
+        ref="DESIGN.md §4 C06"),
 }
 
 NOT_APPLICABLE = {
